@@ -18,6 +18,12 @@ package main
 //	ownerannotation      real PhaseReconciler with the annotation owner strategy (multi-cluster
 //	                     ObjectSetPhase wiring) and a given owners annotation on the cluster / desired object
 //	cli                  internal/cmd Tree.RenderPackage (from a temp dir) and Validate.ValidatePackage
+//	controller           the real NewPackageController / NewClusterPackageController (hence the real
+//	                     NewPackageDeployer / NewClusterPackageDeployer wiring of the manager) with a scripted
+//	                     image puller: Reconcile of a (Cluster)Package next to 0..n other packages of the same manifest
+//	include              transform.SprigFuncs (the function table of package templates and ObjectTemplates) on a
+//	                     template whose helpers call the harness functions enter / leave: the observation carries
+//	                     the deepest nesting of helper bodies; a nesting beyond the scenario's bound aborts the render
 
 import (
 	"bytes"
@@ -32,6 +38,7 @@ import (
 	"runtime/debug"
 	"strings"
 	"sync"
+	"text/template"
 	"time"
 
 	"github.com/go-logr/logr"
@@ -44,12 +51,14 @@ import (
 	ggcrtypes "github.com/google/go-containerregistry/pkg/v1/types"
 	metav1 "k8s.io/apimachinery/pkg/apis/meta/v1"
 	"k8s.io/apimachinery/pkg/apis/meta/v1/unstructured"
+	"k8s.io/apimachinery/pkg/runtime"
 	"k8s.io/apimachinery/pkg/runtime/schema"
 	"k8s.io/apimachinery/pkg/types"
 	"k8s.io/apimachinery/pkg/util/validation/field"
 	"k8s.io/client-go/util/workqueue"
 	"pkg.package-operator.run/boxcutter/ownerhandling"
 	ctrl "sigs.k8s.io/controller-runtime"
+	"sigs.k8s.io/controller-runtime/pkg/client"
 	"sigs.k8s.io/controller-runtime/pkg/event"
 	"sigs.k8s.io/controller-runtime/pkg/handler"
 	"sigs.k8s.io/controller-runtime/pkg/predicate"
@@ -63,10 +72,12 @@ import (
 	"package-operator.run/internal/constants"
 	"package-operator.run/internal/controllers"
 	"package-operator.run/internal/controllers/objecttemplate"
+	pkgcontroller "package-operator.run/internal/controllers/packages"
 	"package-operator.run/internal/dynamiccache"
 	"package-operator.run/internal/imageprefix"
 	"package-operator.run/internal/packages"
 	internalprobing "package-operator.run/internal/probing"
+	"package-operator.run/internal/transform"
 )
 
 type npScenario struct {
@@ -92,6 +103,17 @@ type npScenario struct {
 	// template-reconcile
 	Template json.RawMessage   `json:"template,omitempty"` // the ObjectTemplate object
 	Store    []json.RawMessage `json:"store,omitempty"`    // further cluster objects
+
+	// controller: Render.Files is the image content, Cluster selects ClusterPackage; Others = number of other
+	// (Cluster)Packages carrying the manifest label ManifestName; Passes = number of Reconcile calls
+	Others       int    `json:"others,omitempty"`
+	ManifestName string `json:"manifest_name,omitempty"`
+	Passes       int    `json:"passes,omitempty"`
+
+	// include
+	Text     string          `json:"text,omitempty"`
+	Data     json.RawMessage `json:"data,omitempty"`
+	MaxDepth int             `json:"max_depth,omitempty"` // abort when helper bodies nest deeper than this
 
 	// ownerannotation
 	Annotation string `json:"annotation,omitempty"`
@@ -484,6 +506,135 @@ func npOwnerAnnotation(ctx context.Context, sc *npScenario) (npObs, error) {
 	return npObs{Class: "ok"}, nil
 }
 
+// ------------------------------------------------------------------ package controllers
+
+type npPuller struct{ files map[string]string }
+
+func (p *npPuller) Pull(context.Context, string) (*packages.RawPackage, error) {
+	return &packages.RawPackage{Files: freshFiles(p.files)}, nil
+}
+
+func npController(ctx context.Context, sc *npScenario) (npObs, error) {
+	scheme := newScheme()
+	s := NewStore(scheme, newMapper())
+	env := manifests.PackageEnvironment{Kubernetes: manifests.PackageEnvironmentKubernetes{Version: "v1.29.0"}}
+	if e, err := sc.Render.env(); err == nil && len(sc.Render.Environment) > 0 {
+		env = e
+	}
+	ns := sc.Render.Package.Namespace
+	if sc.Cluster {
+		ns = ""
+	} else if ns == "" {
+		ns = "ns1"
+	}
+	name := sc.Render.Package.Name
+	if name == "" {
+		name = "p"
+	}
+	spec := corev1alpha1.PackageSpec{Image: "registry.example/verif/pkg:v1", Component: sc.Render.Component}
+	if len(sc.Render.Config) > 0 && string(sc.Render.Config) != "null" {
+		spec.Config = &runtime.RawExtension{Raw: append([]byte{}, sc.Render.Config...)}
+	}
+	mk := func(n string, labels map[string]string) client.Object {
+		md := metav1.ObjectMeta{Name: n, Namespace: ns, Labels: labels}
+		if sc.Cluster {
+			return &corev1alpha1.ClusterPackage{ObjectMeta: md, Spec: spec}
+		}
+		return &corev1alpha1.Package{ObjectMeta: md, Spec: spec}
+	}
+	for i := 0; i < sc.Others; i++ {
+		if err := s.Create(ctx, mk(fmt.Sprintf("other%d", i), map[string]string{"package-operator.run/package": sc.ManifestName})); err != nil {
+			return npObs{}, err
+		}
+	}
+	if err := s.Create(ctx, mk(name, sc.Render.Package.Labels)); err != nil {
+		return npObs{Class: "err", Stage: "admission", Err: "create"}, nil
+	}
+	puller := &npPuller{files: sc.Render.Files}
+	var c *pkgcontroller.GenericPackageController
+	if sc.Cluster {
+		c = pkgcontroller.NewClusterPackageController(s, s, logr.Discard(), scheme, puller, nil, nil, nil)
+	} else {
+		c = pkgcontroller.NewPackageController(s, s, logr.Discard(), scheme, puller, nil, nil, nil)
+	}
+	c.SetEnvironment(&env)
+	passes := sc.Passes
+	if passes < 1 {
+		passes = 1
+	}
+	var lastErr error
+	for i := 0; i < passes; i++ {
+		_, lastErr = c.Reconcile(ctx, ctrl.Request{NamespacedName: types.NamespacedName{Namespace: ns, Name: name}})
+	}
+	kind := "Package"
+	if sc.Cluster {
+		kind = "ClusterPackage"
+	}
+	got := s.RawGet(storeKey{corev1alpha1.GroupVersion.Group, kind, ns, name})
+	conds, _, _ := unstructured.NestedSlice(got, "status", "conditions")
+	invalid := ""
+	for _, cd := range conds {
+		if m, ok := cd.(map[string]any); ok && m["type"] == corev1alpha1.PackageInvalid && m["status"] == "True" {
+			invalid, _ = m["reason"].(string)
+		}
+	}
+	if lastErr != nil {
+		o := npErr("reconcile", lastErr)
+		o.Info = "invalid=" + invalid + " " + o.Info
+		return o, nil
+	}
+	return npObs{Class: "ok", Info: "invalid=" + invalid}, nil
+}
+
+// ------------------------------------------------------------------ template function table (include guard)
+
+var errNpRunaway = errors.New("verif: helper bodies nested deeper than the scenario's bound")
+
+func npInclude(sc *npScenario) (npObs, error) {
+	depth, maxSeen, enters := 0, 0, 0
+	tmpl := template.New("pkg").Option("missingkey=error")
+	tmpl = tmpl.Funcs(transform.SprigFuncs(tmpl)).Funcs(template.FuncMap{
+		"enter": func() (string, error) {
+			depth++
+			enters++
+			if depth > maxSeen {
+				maxSeen = depth
+			}
+			if sc.MaxDepth > 0 && depth > sc.MaxDepth {
+				return "", errNpRunaway
+			}
+			return "", nil
+		},
+		"leave": func() string { depth--; return "" },
+	})
+	if _, err := tmpl.Parse(sc.Text); err != nil {
+		return npObs{Class: "err", Stage: "parse", Err: "template-parse"}, nil
+	}
+	var data any
+	if len(sc.Data) > 0 {
+		if err := json.Unmarshal(sc.Data, &data); err != nil {
+			return npObs{}, err
+		}
+	}
+	var buf bytes.Buffer
+	err := tmpl.Execute(&buf, data)
+	info := fmt.Sprintf("depth=%d enters=%d", maxSeen, enters)
+	switch {
+	case err == nil:
+		return npObs{Class: "ok", Info: info}, nil
+	case errors.Is(err, errNpRunaway):
+		return npObs{Class: "runaway", Stage: "execute", Err: "nesting-bound", Info: info}, nil
+	case errors.Is(err, transform.ErrExceededIncludeRecursion):
+		return npObs{Class: "err", Stage: "execute", Err: "include-recursion-guard", Info: info}, nil
+	default:
+		msg := err.Error()
+		if len(msg) > 120 {
+			msg = msg[:120]
+		}
+		return npObs{Class: "err", Stage: "execute", Err: "template-exec", Info: info + " " + msg}, nil
+	}
+}
+
 func init() {
 	register("nopanic", func(raw json.RawMessage) (any, error) {
 		npOnce.Do(func() { debug.SetMaxStack(256 << 20) })
@@ -506,6 +657,13 @@ func init() {
 			return npCLI(ctx, &sc)
 		case "oci":
 			return npOCI(ctx, &sc), nil
+		case "controller":
+			if sc.Render == nil {
+				return nil, errors.New("render missing")
+			}
+			return npController(ctx, &sc)
+		case "include":
+			return npInclude(&sc)
 		case "probe":
 			return npProbe(ctx, &sc)
 		case "mapconditions":
